@@ -45,12 +45,6 @@ static int ti_of(void*ti){
   return RT_TI__ZTISt9exception; }
 /* externals whose bodies live in libstdc++.so: message construction is not part of any property -> empty bodies */
 #include "rt.h"
-void F__ZNSt11logic_errorC1EPKc(void*a, unsigned char*b){}
-void F__ZNSt11logic_errorD1Ev(void*a){}
-void F__ZNSt14overflow_errorC1EPKc(void*a, unsigned char*b){}
-void F__ZNSt14overflow_errorD1Ev(void*a){}
-void F__ZNSt16invalid_argumentC1ERKNSt7__cxx1112basic_stringIcSt11char_traitsIcESaIcEEE(void*a, void*b){}
-void F__ZNSt16invalid_argumentD1Ev(void*a){}
 /* libstdc++ (cxx11 ABI) basic_string<char>: the three out-of-line members the inlined header code of the sentinel /
    coordinate-width messages calls.  Implemented faithfully on the ABI layout {char*; size_t; union{char[16]; size_t cap}} so that
    the inlined header code that follows (which reads _M_p/_M_string_length) sees a valid string. */
@@ -77,4 +71,13 @@ void *F__ZNSt7__cxx1112basic_stringIcSt11char_traitsIcESaIcEE10_M_replaceEmmPKcm
 void *F__ZNSt7__cxx1112basic_stringIcSt11char_traitsIcESaIcEE9_M_appendEPKcm(void *s_, unsigned char *str, unsigned long n2) {
   struct rt_string *s = s_;
   return F__ZNSt7__cxx1112basic_stringIcSt11char_traitsIcESaIcEE10_M_replaceEmmPKcm(s, s->len, 0, str, n2);
+}
+/* assert() in the source under test */
+void F___assert_fail(unsigned char *expr, unsigned char *file, unsigned int line, unsigned char *func) {
+#ifdef __CPROVER__
+  __CPROVER_assert(0, "assert() in the code under test holds");
+  __CPROVER_assume(0);
+#else
+  abort();
+#endif
 }
